@@ -24,9 +24,9 @@ WATCHDOG = {"quick": 900, "thorough": 3600}
 
 
 def plan(tier, seed):
-    n = 520 if tier == "quick" else 9000
+    n = 1200 if tier == "quick" else 12000
     cases = [{"mode": "diff", "seed": seed, "idx": i, "separate": i % 6 == 5} for i in range(n)]
-    m = 600 if tier == "quick" else 30000
+    m = 2000 if tier == "quick" else 40000
     cases += [{"mode": "inject", "seed": seed, "idx": i} for i in range(m)]
     cases += [{"mode": "live", "seed": seed, "idx": i} for i in range(120 if tier == "quick" else 1200)]
     # directed case for the listed finding C13-second-stream-replays-market
